@@ -111,6 +111,14 @@ pub struct Meta {
 pub trait Scenario: Sync {
     type Plan: Serialize + DeserializeOwned + Clone + Send + 'static;
     fn id(&self) -> &'static str;
+    /// "focused" or "pipeline": which plan type a replay file of this scenario holds
+    fn kind(&self) -> &'static str {
+        "focused"
+    }
+    /// tag mixed into the run seeds (differs between the scenarios of one property)
+    fn seed_tag(&self) -> String {
+        self.id().to_string()
+    }
     fn runs(&self, tier: Tier) -> u64;
     fn generate(&self, rng: &mut Rng, tier: Tier, run_index: u64) -> Self::Plan;
     fn execute(&self, plan: &Self::Plan) -> Outcome<Self::Plan>;
@@ -204,12 +212,19 @@ impl Env {
 #[derive(Serialize, Deserialize)]
 pub struct ReplayFile {
     pub property: String,
+    /// "focused" (the property's own scenario) or "pipeline"
+    #[serde(default = "focused_name")]
+    pub scenario: String,
     pub batch_seed: u64,
     pub run_index: u64,
     pub tier: String,
     pub violation: Violation,
     pub shrink_steps: u64,
     pub plan: Value,
+}
+
+fn focused_name() -> String {
+    "focused".to_string()
 }
 
 struct Acc {
@@ -316,7 +331,7 @@ impl Acc {
 }
 
 pub fn plan_of<S: Scenario>(sc: &S, env: &Env, idx: u64) -> S::Plan {
-    let mut rng = Rng::new(run_seed(env.seed, sc.id(), idx));
+    let mut rng = Rng::new(run_seed(env.seed, &sc.seed_tag(), idx));
     sc.generate(&mut rng, env.tier, idx)
 }
 
@@ -379,13 +394,77 @@ pub struct BatchResult {
     pub exit_code: i32,
 }
 
+pub struct BatchReport {
+    pub exit_code: i32,
+    pub coverage: serde_json::Map<String, Value>,
+    pub level: &'static str,
+    pub assumptions: Vec<&'static str>,
+    pub new_violations: u64,
+    pub wall_s: f64,
+}
+
 pub fn run_check<S: Scenario>(sc: &S, env: &Env) -> BatchResult {
+    let r = run_batch(sc, env, env.runs_override.unwrap_or_else(|| sc.runs(env.tier)));
+    write_evidence(env, sc.id(), &r, &[]);
+    BatchResult { exit_code: r.exit_code }
+}
+
+/// focused scenario of the property, then the pipeline scenario judged with the
+/// same property's oracle; one evidence file
+pub fn exit_of(reports: &[&BatchReport]) -> i32 {
+    if reports.iter().any(|r| r.exit_code == 2) {
+        2
+    } else {
+        reports.iter().map(|r| r.exit_code).max().unwrap_or(0)
+    }
+}
+
+pub fn extra_runs(sc_runs: u64, var: &str) -> u64 {
+    std::env::var(var).ok().and_then(|s| s.parse().ok()).unwrap_or(sc_runs)
+}
+
+pub fn write_evidence(env: &Env, id: &str, r: &BatchReport, extras: &[(&str, &BatchReport)]) {
+    let mut cov = r.coverage.clone();
+    let mut violations = r.new_violations;
+    let mut wall = r.wall_s;
+    let mut assumptions: Vec<String> = r.assumptions.iter().map(|s| s.to_string()).collect();
+    for (name, p) in extras {
+        let mut pc = p.coverage.clone();
+        // one sample of a secondary scenario is enough in the property's file
+        if let Some(Value::Array(a)) = pc.get_mut("samples") {
+            a.truncate(1);
+        }
+        cov.insert(name.to_string(), Value::Object(pc));
+        violations += p.new_violations;
+        wall += p.wall_s;
+        for a in &p.assumptions {
+            assumptions.push(format!("{}: {}", name, a));
+        }
+    }
+    let ev = json!({
+        "property_id": id,
+        "tier": env.tier.name(),
+        "seed": env.seed,
+        "level": r.level,
+        "coverage": Value::Object(cov),
+        "assumptions": assumptions,
+        "wall_s": wall,
+        "violations": violations,
+    });
+    let evdir = std::env::var("VERIF_EVIDENCE_DIR").unwrap_or_else(|_| format!("{}/evidence", env.verif_dir));
+    let _ = std::fs::create_dir_all(&evdir);
+    let evpath = format!("{}/{}.json", evdir, id);
+    std::fs::write(&evpath, serde_json::to_string_pretty(&ev).unwrap()).unwrap();
+    println!("[{}] evidence -> {}", id, evpath);
+}
+
+pub fn run_batch<S: Scenario>(sc: &S, env: &Env, n_runs: u64) -> BatchReport {
     exec::install_panic_hook();
     let t0 = Instant::now();
-    let n_runs = env.runs_override.unwrap_or_else(|| sc.runs(env.tier));
     println!(
-        "[{}] tier={} seed={} runs={} workers={}",
+        "[{}/{}] tier={} seed={} runs={} workers={}",
         sc.id(),
+        sc.kind(),
         env.tier.name(),
         env.seed,
         n_runs,
@@ -485,15 +564,17 @@ pub fn run_check<S: Scenario>(sc: &S, env: &Env) -> BatchResult {
                         && min_v.locator.starts_with(&k.locator[..k.locator.len() - 1])))
         });
         let fname = format!(
-            "{}/{}-{}-{}-{}.json",
+            "{}/{}{}-{}-{}-{}.json",
             replay_dir,
             sc.id(),
+            if sc.kind() == "focused" { String::new() } else { format!("-{}", sc.kind()) },
             env.seed,
             idx,
             sanitize(&min_v.class)
         );
         let rf = ReplayFile {
             property: sc.id().to_string(),
+            scenario: sc.kind().to_string(),
             batch_seed: env.seed,
             run_index: idx,
             tier: env.tier.name().to_string(),
@@ -552,7 +633,7 @@ pub fn run_check<S: Scenario>(sc: &S, env: &Env) -> BatchResult {
     let mut samples = Vec::new();
     for i in 0..3.min(n_runs) {
         let p = plan_of(sc, env, i);
-        samples.push(json!({"run_index": i, "run_seed": run_seed(env.seed, sc.id(), i), "plan": sc.sample(&p)}));
+        samples.push(json!({"run_index": i, "run_seed": run_seed(env.seed, &sc.seed_tag(), i), "plan": sc.sample(&p)}));
     }
     let mut faults = serde_json::Map::new();
     for k in &meta.fault_kinds {
@@ -583,12 +664,7 @@ pub fn run_check<S: Scenario>(sc: &S, env: &Env) -> BatchResult {
         .iter()
         .map(|(n, k)| json!({"component": n, "kind": k}))
         .collect();
-    let ev = json!({
-        "property_id": sc.id(),
-        "tier": env.tier.name(),
-        "seed": env.seed,
-        "level": meta.level,
-        "coverage": {
+    let coverage = json!({
             "evaluations": acc.evaluations,
             "distinct_nontrivial": acc.nontrivial.len(),
             "rule": meta.rule,
@@ -610,18 +686,12 @@ pub fn run_check<S: Scenario>(sc: &S, env: &Env) -> BatchResult {
             "workers": env.workers,
             "violating_runs": acc.violating_runs,
             "known_findings_hit": known_hits,
-        },
-        "assumptions": meta.assumptions,
-        "wall_s": wall,
-        "violations": new_violations,
+            "batch_wall_s": wall_batch,
     });
-    let evdir = format!("{}/evidence", env.verif_dir);
-    let _ = std::fs::create_dir_all(&evdir);
-    let evpath = format!("{}/{}.json", evdir, sc.id());
-    std::fs::write(&evpath, serde_json::to_string_pretty(&ev).unwrap()).unwrap();
     println!(
-        "[{}] runs={} executions={} distinct_nontrivial={} sim_s={:.0} wall={:.1}s violations={} known={} -> {}",
+        "[{}/{}] runs={} executions={} distinct_nontrivial={} sim_s={:.0} wall={:.1}s violations={} known={}",
         sc.id(),
+        sc.kind(),
         acc.runs,
         acc.evaluations,
         acc.nontrivial.len(),
@@ -629,10 +699,18 @@ pub fn run_check<S: Scenario>(sc: &S, env: &Env) -> BatchResult {
         wall,
         new_violations,
         known_hits,
-        evpath
     );
-    BatchResult { exit_code }
+    let Value::Object(coverage) = coverage else { unreachable!() };
+    BatchReport {
+        exit_code,
+        coverage,
+        level: meta.level,
+        assumptions: meta.assumptions.clone(),
+        new_violations,
+        wall_s: wall,
+    }
 }
+
 
 fn sanitize(s: &str) -> String {
     s.chars()
